@@ -279,4 +279,14 @@ def R5_swap_sides(run):
     C06.R4_swap_transfers(Proxy(run))
 
 
-RULES = [R1_outflows, R2_pay_reset, R3_liquidity_rounding, R4_floors, R5_swap_sides]
+def R6_cross_checks(run):
+    run.title("R6", 'claims are anchored to this pool and computed the same way on both packagings: positions / vaults / mints of the collecting and liquidity instructions are tied to the pool named (C15.R1, C15.R3 instances) and the Pinocchio fee-growth bookkeeping follows the Anchor one (C07.R3, C07.R4 instances)')
+    from rules.common import RuleProxy
+    from rules import C15, C07
+    C15.R1_token_accounts(RuleProxy(run, 'R6'))
+    C15.R3_back_references(RuleProxy(run, 'R6'))
+    C07.R3_init_convention(RuleProxy(run, 'R6'))
+    C07.R4_inside(RuleProxy(run, 'R6'))
+
+
+RULES = [R1_outflows, R2_pay_reset, R3_liquidity_rounding, R4_floors, R5_swap_sides, R6_cross_checks]
